@@ -1,5 +1,7 @@
 """C19 - dynamic macros replay what was typed and never leave a key down."""
 from props.common import *
+import re
+from kv import REPO
 
 K = lambda k: {"t": "key", "k": k}
 RAW = lambda t: {"t": "raw", "text": t}
@@ -59,14 +61,13 @@ ENV_TLA = r"""
 \* ----- the typing environment of the C19 instances -------------------------------------------------
 CtlCodes == %(ctl)s
 RecCodes == %(rec)s
+PlayCodes == %(play)s
 CtlQueued == \E i \in DOMAIN K.L.queue : K.L.queue[i].p /\ K.L.queue[i].x = 0 /\ K.L.queue[i].y \in CtlCodes
 \* no input while a control key press waits in the queue (the recording boundary would not be determined by
-\* the input order); a recording is started only while fewer than Saves macros were saved; plain keys are
-\* pressed only until the last save%(replay_doc)s
+\* the input order); at most %(held)d keys are held at a time; after the last save only play keys are pressed%(replay_doc)s
 EnvCan == Alive /\ Len(K.L.queue) < QMax /\ ~CtlQueued
-EPress(c) == /\ EnvCan /\ c \notin phys %(press_guard)s
-             /\ (c \in RecCodes => K.dyn.ns < %(saves)d)
-             /\ (c \notin CtlCodes => K.dyn.ns < %(saves)d)
+EPress(c) == /\ EnvCan /\ c \notin phys /\ Cardinality(phys) < %(held)d %(press_guard)s
+             /\ (c \notin PlayCodes => K.dyn.ns < %(saves)d)
              /\ K' = HandleInput(K, "d", c) /\ phys' = phys \cup {c}
              /\ mon' = Mon!MonIn(mon, [e |-> "d", c |-> c, out |-> K'.out])
              /\ hist' = Append(hist, <<"d", c>>)
@@ -77,7 +78,7 @@ ERelease(c) == /\ EnvCan /\ c \in phys %(release_guard)s
 """
 
 
-def instance(name, desc, params, D=1, qmax=1, maclen=3, free_replay=False, saves=1):
+def instance(name, desc, params, D=1, qmax=1, maclen=3, free_replay=False, saves=1, held=2):
     """The exhaustive instance: every physically consistent typing history over the keys within the bounds: at most
     `saves` macros saved, at most `maclen` stored events in a recording, gaps 0..D ticks between recorded events,
     at most qmax unprocessed events.  States in which a macro was saved with two or more synthesized releases are
@@ -86,8 +87,9 @@ def instance(name, desc, params, D=1, qmax=1, maclen=3, free_replay=False, saves
     keys = [cfgdesc.code(k) for k in desc["keys"]]
     ctl = "{" + ", ".join(str(c["c"]) for c in params["ctl"]) + "}"
     rec = "{" + ", ".join(str(c["c"]) for c in params["ctl"] if c["k"] == "rec") + "}"
+    play = "{" + ", ".join(str(c["c"]) for c in params["ctl"] if c["k"] == "play") + "}"
     env = ENV_TLA % dict(
-        ctl=ctl, rec=rec, saves=saves,
+        ctl=ctl, rec=rec, play=play, saves=saves, held=held,
         replay_doc="" if free_replay else "; while a replay runs only control keys are released",
         press_guard="" if free_replay else "/\\ K.dyn.rep = <<>>",
         release_guard="" if free_replay else "/\\ (K.dyn.rep = <<>> \\/ c \\in CtlCodes)")
@@ -101,11 +103,246 @@ def instance(name, desc, params, D=1, qmax=1, maclen=3, free_replay=False, saves
 
 
 def family(tier):
-    F = []
     A = {"a": K("a")}
     AB = {"a": K("a"), "b": {"t": "chord", "mods": ["lsft"], "k": "b"}}
-    F.append(("basic_const", make(["rec1", "stop", "play1"], A, "constant", 1), dict(D=1, saves=1, maclen=3)))
+    F = [
+        # record / stop key / play, the size limit (max-presses 1: a press arriving with 3 stored events stops)
+        ("basic_const", make(["rec1", "stop", "play1"], A, "constant", 1), dict(D=1, saves=1, maclen=3)),
+        # recorded delays: the gap runs as extra ticks inside one tick_ms call; the record key stops its own macro
+        ("basic_rec", make(["rec1", "play1"], A, "recorded", 2), dict(D=2, saves=1, maclen=3)),
+        # stop with truncation, an output chord
+        ("trunc", make(["rec1", "stopt1", "play1"], AB, "constant", 2), dict(D=0, saves=1, maclen=3)),
+        # two macros: re-recording, switching the recording by the other record key, nested play, the recursion guard
+        ("nested", make(["rec1", "rec2", "play1", "play2"], A, "constant", 2), dict(D=0, saves=2, maclen=3, held=1)),
+        # a layer-while-held key held across the boundaries
+        ("layer", make(["rec1", "stop", "play1"], A, "constant", 2, layer=True), dict(D=0, saves=1, maclen=3)),
+        # a time-sensitive mapping replayed with the recorded delays
+        ("taphold", make(["rec1", "play1"], {}, "recorded", 2, th=("c", 3, "a", "lsft")), dict(D=5, saves=1, maclen=3, held=1)),
+        # bursts (two unprocessed events) and typing while the replay runs
+        ("burst", make(["rec1", "play1"], A, "constant", 2), dict(D=0, saves=1, maclen=2, qmax=2, free_replay=True)),
+    ]
     return F
+
+
+# ------------------------------------------------------------------ histories recorded from the real code (binding C)
+def C(name):
+    return cfgdesc.code(CTL[name][0]) if name in CTL else cfgdesc.code(name)
+
+
+def tap(k, hold=1, after=1):
+    return [["d", C(k)], ["t", hold], ["u", C(k)]] + ([["t", after]] if after else [])
+
+
+def wait_replay(n_events, slack=25):
+    return [["t", 6 * n_events + slack]]
+
+
+def bodies(keys, maxlen):
+    """every physically consistent event list over `keys` (names) of length <= maxlen, as (events, still down)"""
+    out = []
+
+    def rec(evs, down):
+        out.append((list(evs), set(down)))
+        if len(evs) == maxlen:
+            return
+        for k in keys:
+            if k in down:
+                rec(evs + [("u", k)], down - {k})
+            else:
+                rec(evs + [("d", k)], down | {k})
+    rec([], frozenset())
+    return out
+
+
+def body_steps(evs, gaps):
+    s = []
+    for i, (e, k) in enumerate(evs):
+        s.append([e, C(k)])
+        g = gaps[i % len(gaps)]
+        if g:
+            s.append(["t", g])
+    return s
+
+
+def directed(cfgname, rng, tier):
+    """Scenario scripts for the configuration family member `cfgname` (see CONFIGS): systematic enumeration of
+    recorded bodies x keys held across the start boundary x the way the recording is stopped, plus nesting,
+    recursion, re-recording, play while recording, the size limit."""
+    S = []
+    stops = ["stop", "stopt1", "stopt2", "rec1", "rec2"]
+    plain = ["a", "b", "lsft"] if cfgname != "taphold" else ["c"]
+    gapsets = [[1], [2, 1], [1, 3, 1]] if cfgname != "taphold" else [[1], [7], [1, 7], [7, 1, 1]]
+    for evs, down in bodies(plain, 4 if tier == "thorough" else 3):
+        for pre in ([], ["a"], ["lsft"], ["lsft", "a"]) if cfgname != "taphold" else ([],):
+            if any(("d", k) == evs[0] for k in pre if evs):
+                continue      # a pre-held key cannot be pressed again first
+            # physically consistent with the pre-held keys
+            dn, ok = set(pre), True
+            for e, k in evs:
+                if (e == "d") == (k in dn):
+                    ok = False
+                    break
+                dn = dn - {k} if e == "u" else dn | {k}
+            if not ok:
+                continue
+            for st in stops:
+                gaps = rng.choice(gapsets)
+                s = []
+                for k in pre:
+                    s += [["d", C(k)], ["t", 1]]
+                s += tap("rec1")
+                s += body_steps(evs, gaps)
+                s += tap(st, 1, 2)
+                if st == "rec2":
+                    s += tap("stop", 1, 2)
+                # release what is still held (sometimes only after the replay)
+                late = rng.random() < 0.3
+                rel = []
+                for k in sorted(dn):
+                    rel += [["u", C(k)], ["t", 1]]
+                if not late:
+                    s += rel
+                s += tap("play1", 1, 0) + wait_replay(len(evs) + 3)
+                if late:
+                    s += rel
+                s += tap("play1", 2, 0) + wait_replay(len(evs) + 3)
+                s += [["t", 30]]
+                S.append(s)
+    if cfgname == "taphold":
+        return S, []
+    E, S = S, []
+    # nesting / recursion / re-recording / play while recording / size limit
+    def recmac(rk, body, stop="stop"):
+        return tap(rk) + body + tap(stop, 1, 2)
+    ab = tap("a") + tap("b")
+    for inner in (tap("a"), ab, [["d", C("lsft")], ["t", 1]] + tap("a") + [["u", C("lsft")], ["t", 1]]):
+        for outer_pre in ([], tap("b")):
+            for outer_post in ([], tap("a", 2)):
+                # macro 2 plays macro 1 (recorded live: the replay of 1 runs while 2 is recorded)
+                s = recmac("rec1", inner) + tap("rec2") + outer_pre + tap("play1", 1, 0) + wait_replay(8) + outer_post + \
+                    tap("stop", 1, 2) + tap("play2", 1, 0) + wait_replay(20) + [["t", 30]]
+                S.append(s)
+                # macro 2 recorded before macro 1 exists: the nested play uses what is stored when 2 is replayed
+                s = tap("rec2") + outer_pre + tap("play1") + outer_post + tap("stop", 1, 2) + recmac("rec1", inner) + \
+                    tap("play2", 1, 0) + wait_replay(20) + [["t", 30]]
+                S.append(s)
+    # recursion: 1 contains play1; 1 -> 2 -> 1
+    S.append(tap("rec1") + tap("a") + tap("play1") + tap("b") + tap("stop", 1, 2) + tap("play1", 1, 0) + wait_replay(12) + [["t", 30]])
+    S.append(recmac("rec1", tap("a")) + tap("rec1") + tap("b") + tap("play1", 1, 0) + wait_replay(6) + tap("stop", 1, 2) +
+             tap("play1", 1, 0) + wait_replay(12) + [["t", 30]])
+    S.append(tap("rec1") + tap("a") + tap("play2") + tap("stop", 1, 2) + tap("rec2") + tap("b") + tap("play1", 1, 0) + wait_replay(10) +
+             tap("stop", 1, 2) + tap("play1", 1, 0) + wait_replay(20) + tap("play2", 1, 0) + wait_replay(20) + [["t", 30]])
+    # the same macro nested twice in a row, and twice with typing in between
+    S.append(recmac("rec1", tap("a")) + tap("rec2") + tap("play1", 1, 0) + wait_replay(6) + tap("play1", 1, 0) + wait_replay(6) +
+             tap("stop", 1, 2) + tap("play2", 1, 0) + wait_replay(20) + [["t", 30]])
+    S.append(recmac("rec1", ab) + tap("rec2") + tap("play1", 1, 0) + wait_replay(8) + tap("b") + tap("play1", 1, 0) + wait_replay(8) +
+             tap("stop", 1, 2) + tap("play2", 1, 0) + wait_replay(30) + tap("play2", 1, 0) + wait_replay(30) + [["t", 30]])
+    # re-recording replaces; switching by the other record key saves and starts
+    S.append(recmac("rec1", ab) + tap("play1", 1, 0) + wait_replay(6) + recmac("rec1", tap("b")) + tap("play1", 1, 0) + wait_replay(6) + [["t", 30]])
+    S.append(tap("rec1") + tap("a") + tap("rec2") + tap("b") + tap("rec2", 1, 2) + tap("play1", 1, 0) + wait_replay(6) + tap("play2", 1, 0) +
+             wait_replay(6) + [["t", 30]])
+    # a stop key replayed while another macro is recorded must not be in the macro (the stop key itself is excluded)
+    S.append(recmac("rec1", tap("a")) + tap("rec2") + tap("play1", 1, 0) + wait_replay(6) + tap("b") + tap("stop", 1, 2) +
+             tap("play2", 1, 0) + wait_replay(14) + [["t", 30]])
+    S.append(recmac("rec1", tap("a"), "stopt1") + tap("rec2") + tap("play1", 1, 0) + wait_replay(6) + tap("b") + tap("a") + tap("stop", 1, 2) +
+             tap("play2", 1, 0) + wait_replay(16) + [["t", 30]])
+    # the size limit (max-presses of the configuration: see CONFIGS): type 2 .. 3*max+3 taps, then stop and play
+    for n in range(1, 12):
+        body = []
+        for i in range(n):
+            body += tap("a" if i % 2 == 0 else "b", 1, rng.choice([1, 1, 2]))
+        S.append(tap("rec1") + body + tap("stop", 1, 2) + tap("play1", 1, 0) + wait_replay(2 * n + 3) + [["t", 30]])
+        # all presses first (keys held): the limit counts events, not keys
+    S.append(tap("rec1") + [["d", C("a")], ["t", 1], ["d", C("b")], ["t", 1], ["d", C("lsft")], ["t", 1]] + tap("stop", 1, 2) +
+             [["u", C("a")], ["t", 1], ["u", C("b")], ["t", 1], ["u", C("lsft")], ["t", 1]] + tap("play1", 1, 0) + wait_replay(8) + [["t", 30]])
+    return E, S
+
+
+def random_session(rng, cfgname, long=False):
+    """a random typing session: recordings (random bodies, random way of stopping), plays, sometimes typing or
+    control keys without waiting (soft zones of the monitor), everything released at the end"""
+    plain = ["a", "b", "lsft"] if cfgname != "taphold" else ["c"]
+    gaps = [0, 1, 1, 1, 2, 3, 6] if cfgname != "taphold" else [1, 1, 2, 3, 4, 5, 7]
+    s, down = [], set()
+
+    def typing(n, careful):
+        for _ in range(n):
+            k = rng.choice(plain)
+            if k in down:
+                s.append(["u", C(k)])
+                down.discard(k)
+            else:
+                s.append(["d", C(k)])
+                down.add(k)
+            g = rng.choice(gaps)
+            if careful and g == 0:
+                g = 1
+            if g:
+                s.append(["t", g])
+
+    for _ in range(rng.randint(2, 10 if long else 4)):
+        what = rng.random()
+        careful = rng.random() < 0.85
+        if what < 0.5:
+            typing(rng.randint(0, 2), careful)
+            s.extend(tap(rng.choice(["rec1", "rec2"]), 1, 1 if careful else rng.choice([0, 1])))
+            n = rng.randint(0, 14 if long else 6)
+            typing(n, careful)
+            if rng.random() < 0.25:
+                s.extend(tap(rng.choice(["play1", "play2"]), 1, 0))
+                s.append(["t", rng.choice([40, 40, 3])])
+                typing(rng.randint(0, 3), careful)
+            s.extend(tap(rng.choice(["stop", "stop", "stopt1", "stopt2", "rec1", "rec2"]), 1, 2 if careful else rng.choice([0, 1, 2])))
+            if rng.random() < 0.3:
+                s.extend(tap("stop", 1, 2))
+        elif what < 0.9:
+            if rng.random() < 0.6:
+                for k in sorted(down):
+                    s.extend([["u", C(k)], ["t", 1]])
+                down.clear()
+            s.extend(tap(rng.choice(["play1", "play2"]), rng.choice([1, 2, 8]), 0))
+            s.append(["t", rng.choice([120, 120, 60, 4, 12])])
+        else:
+            typing(rng.randint(1, 5), careful)
+    for k in sorted(down):
+        s.extend([["u", C(k)], ["t", 1]])
+    s.extend(tap("stop", 1, 2))
+    s.append(["t", 200])
+    return s
+
+
+def CONFIGS():
+    AB = {"a": K("a"), "b": {"t": "chord", "mods": ["lctl"], "k": "b"}}
+    allctl = ["rec1", "rec2", "stop", "stopt1", "stopt2", "play1", "play2"]
+    return [("full_const", make(allctl, AB, "constant", 3, layer=True)),
+            ("full_rec", make(allctl, AB, "recorded", 3, layer=True)),
+            ("full_big", make(allctl, AB, "recorded", 128, layer=True)),
+            ("taphold", make(allctl, {}, "recorded", 8, th=("c", 4, "a", "lsft")))]
+
+
+_SRC = {}
+
+
+def panic_site(err):
+    """`panic in the code under test: <file>:<line>` -> `<file relative to the tree> fn <name>` (line numbers shift)"""
+    m = re.search(r"panic in the code under test: (\S+?):(\d+)", err)
+    if not m:
+        return ""
+    path, line = m.group(1), int(m.group(2))
+    full = path if os.path.isabs(path) else os.path.join(REPO, path)
+    if full not in _SRC:
+        try:
+            _SRC[full] = open(full, encoding="utf-8", errors="replace").read().splitlines()
+        except OSError:
+            _SRC[full] = []
+    fn = "?"
+    for i in range(min(line, len(_SRC[full])) - 1, -1, -1):
+        mm = re.match(r"\s*(?:pub(?:\([a-z]+\))?\s+)?fn\s+([A-Za-z0-9_]+)", _SRC[full][i])
+        if mm:
+            fn = mm.group(1)
+            break
+    rel = full[len(REPO) + 1:] if full.startswith(REPO + "/") else path
+    return "C19 panic %s fn %s" % (rel, fn)
 
 
 def run(tier, seed):
@@ -113,12 +350,71 @@ def run(tier, seed):
     res = flow.Result(pid, tier, seed)
     rng = random.Random(seed)
     wd = workdir("c19")
-    for name, (desc, params), kw in family(tier):
-        inst = instance(name, desc, params, **kw)
-        r = mc.check_instance(inst, wd, workers=8, timeout=1500)
+    only = os.environ.get("C19_ONLY")
+    witness_jobs = []
+    # ---- bindings D + B: TLC explores L1 || P_C19 || typing environment; every transition replayed on the code
+    fam = [f for f in family(tier) if not only or f[0] in only.split(",")]
+
+    def one(f):
+        name, (desc, params), kw = f
+        return name, params, mc.check_instance(instance(name, desc, params, **kw), wd, workers=4 if tier == "quick" else 8,
+                                               timeout=3000)
+    build_harness()
+    cfgdesc.keytable()
+    if tier == "quick":
+        from concurrent.futures import ThreadPoolExecutor
+        with ThreadPoolExecutor(max_workers=3) as ex:
+            results = list(ex.map(one, fam))
+    else:
+        results = [one(f) for f in fam]
+    for name, params, r in results:
         res.add_instance(r)
         log("[c19] %s: %s" % (name, {k: r.get(k) for k in ("states", "generated", "edges", "replayed", "drift", "n_monerr",
                                                          "n_panic", "tlc_wall_s", "wall_s")}))
-        if r.get("drift"):
-            log(json.dumps(r["drift_samples"][:2])[:3000])
-    return 0
+        if len(res.samples) < 3:
+            res.samples.append({"instance": name, "kbd": open(r["kbd"]).read(), "states": r["states"], "edges": r.get("edges")})
+        ws = flow.witness_scripts(r["monerr_file"], 40) + flow.witness_scripts(r["panic_file"], 10)
+        scripts = [flow.hist_to_script(w["h"], 80) for w in ws] + \
+                  [flow.hist_to_script(d["h"], 80) for d in r.get("drift_samples", [])]
+        if scripts:
+            witness_jobs.append({"cfg": open(r["kbd"]).read(), "params": params, "tag": "w:" + name, "scripts": scripts})
+    # ---- binding C: histories beyond the bounds of the instances, recorded from the code, validated by TLC
+    directed_jobs, random_jobs = [], []
+    if not only or "traces" in only.split(","):
+        for cname, (desc, params) in CONFIGS():
+            kbd = cfgdesc.render_kbd(desc)
+            enum, fixed = directed(cname, rng, tier)     # fixed: nesting / recursion / limit scenarios, always run
+            ds = (rng.sample(enum, 70) if tier == "quick" and len(enum) > 70 else enum) + fixed
+            directed_jobs.append({"cfg": kbd, "params": params, "tag": "d:" + cname, "scripts": ds})
+            n = 30 if tier == "quick" else 300
+            random_jobs.append({"cfg": kbd, "params": params, "tag": "r:" + cname,
+                                "scripts": [random_session(rng, cname, long=(i % 3 == 0)) for i in range(n)]})
+    for label, jobs in (("witness", witness_jobs), ("directed", directed_jobs), ("random", random_jobs)):
+        if not jobs:
+            continue
+        jobs = shard_local_index(jobs)
+        errs, trace = record_and_validate(res, "P_C19", jobs, wd, "c19_" + label)
+        for e in errs:
+            j, sc = script_of(jobs, e["job"], 0)
+            flow.classify(res, pid, e["err"], e["err"] + " " + panic_site(e["err"]) + " cfg=" + j["cfg"],
+                          {"property": pid, "cfg": j["cfg"], "params": j["params"], "script": sc, "err": e["err"],
+                           "monitor": "P_C19"},
+                          "%s_%d" % (label, len(res.violations)))
+        if label != "witness":
+            res.samples.append({label + "_history": jobs[0]["scripts"][0][:40], "cfg": jobs[0]["cfg"]})
+        log("[c19] %s: %d scripts, %d rejected" % (label, len(jobs), len(errs)))
+    return flow.finish(
+        res, "model_checking",
+        "TLC explores L1 (Kanata.tla + DynMacro.tla) || P_C19 || typing environment for every physically consistent typing "
+        "history within the bounds of each instance (record / stop / stop-truncate / record-key-as-stop / play keys, a plain key, "
+        "an output chord, a layer-while-held key, a tap-hold key; constant and recorded replay delays; size limit; nested play and "
+        "the recursion guard with two macros; bursts and typing during the replay); every model transition is replayed on the real "
+        "code (stored macros, record/replay flags and the executed tick count compared); scenario scripts enumerated beyond the "
+        "bounds (all bodies of <=3/4 events x keys held across the start x five ways of stopping; nesting, recursion, re-recording, "
+        "play while recording, size limit) and random sessions are recorded from the code and validated by TLC against P_C19.",
+        assumptions=["deterministic stepper",
+                     "control key presses are processed before the next input arrives in the exhaustive instances (otherwise the "
+                     "recording boundary is not determined by the input order; such histories are in the random sessions, where the "
+                     "monitor keeps only the nothing-stays-down part)",
+                     "exhaustive instances do not expand states where two or more keys were still down at the stop (unspecified release "
+                     "order); the scenario scripts cover them on the code"])
